@@ -154,9 +154,9 @@ Theorem C18_changetype_roundtrip : forall V O C x s ts td,
   eval V O C (Call "changetype" [Call "changetype" [Lit (VStr s); Lit (VStr td)]; Lit (VStr ts)]) = Ok (VStr s).
 Proof.
   intros V O C x s ts td L Hs Hts Htd. split.
-  - change [Lit (VNum x); Lit (VStr ts)] with (map Lit [VNum x; VStr ts]). rewrite eval_nested.
+  - change [Lit (VNum x); Lit (VStr ts)] with (map Lit [VNum x; VStr ts]). rewrite eval_nested by reflexivity.
     exact (changetype_roundtrip_double V O C x s ts td L Hs Hts Htd).
-  - change [Lit (VStr s); Lit (VStr td)] with (map Lit [VStr s; VStr td]). rewrite eval_nested.
+  - change [Lit (VStr s); Lit (VStr td)] with (map Lit [VStr s; VStr td]). rewrite eval_nested by reflexivity.
     exact (changetype_roundtrip_string V O C x s ts td (L x s Hs) Hs Hts Htd).
 Qed.
 Print Assumptions C18_changetype_roundtrip.
@@ -236,9 +236,9 @@ Proof.
   cbv zeta. split; [intros b; apply sym_codec_roundtrip|]. split; [intros b; apply sym_codec_roundtrip|].
   split; [|split; [reflexivity|]].
   - intros v H. simpl in H.
-    repeat (destruct H as [H|H]; [subst v; eexists; split; vm_compute; reflexivity|]). destruct H.
+    repeat (destruct H as [H|H]; [subst v; eexists; (split; [vm_compute; reflexivity|]); vm_compute; reflexivity|]). destruct H.
   - intros x H. simpl in H.
-    repeat (destruct H as [H|H]; [subst x; eexists; split; vm_compute; reflexivity|]). destruct H.
+    repeat (destruct H as [H|H]; [subst x; eexists; (split; [vm_compute; reflexivity|]); vm_compute; reflexivity|]). destruct H.
 Qed.
 
 Example C18_nonvacuous_eval :
@@ -248,7 +248,7 @@ Example C18_nonvacuous_eval :
   call Repaired O ctx0 "elementat" [VArr [VNum 10%float; VNum 20%float; VNum 30%float]; VNum (-0.5)%float] = Ok (VNum 10%float) /\
   call Repaired O ctx0 "elementat" [VArr [VNum 10%float]; VNum (-1)%float] = Err /\
   call Repaired O ctx0 "elementat" [VArr [VNum 10%float]; VNum 1%float] = Err /\
-  call Repaired O ctx0 "elementat" [VArr [VNum 10%float]; VNum 1e30%float] = Err /\
+  call Repaired O ctx0 "elementat" [VArr [VNum 10%float]; VNum 0x1p100%float] = Err /\
   call Repaired O ctx0 "unwind" [VArr [VArr [VNum 1%float; VArr []]; VNull; VStr "x"]] = Ok (VArr [VNum 1%float; VArr []; VNull; VStr "x"]) /\
   call Repaired O ctx0 "concat" [VStr "a"; VNum 1.5%float; VBool true] = Ok (VStr "a1.5true") /\
   call Repaired O ctx0 "concat" [VStr "a"; VNull] = Ok (VStr "a<nil>") /\
